@@ -139,7 +139,9 @@ def cflt(x, model=None):
         from fractions import Fraction
         v = model.eval(x.r, model_completion=True)
         fr = Fraction(v.numerator_as_long(), v.denominator_as_long())
-        return {'f': fbits(float(fr))}
+        f_ = float(fr)
+        if f_ == 0.0 and x.neg: f_ = -0.0
+        return {'f': fbits(f_)}
     if is_sym(x) and model is not None and z3.is_fp(x):
         import struct
         v = model.eval(x, model_completion=True)
